@@ -17,7 +17,15 @@ fn process_commands(
     for command in commands {
         let clean_command = command.trim();
         if clean_command != "" {
-            match process_request(clean_command, dbs, client) {
+            let response = process_request(clean_command, dbs, client);
+            // Everything the command queued for this client belongs to this command: take it all
+            // now, so a refusal that also queued a message (or a notification) cannot be
+            // reported as the reply of a later command
+            let mut messages = Vec::new();
+            while let Ok(Some(message)) = receiver.try_next() {
+                messages.push(message);
+            }
+            match response {
                 Response::Error { msg } => {
                     responses.push(msg.clone());
                     log::debug!("Http response Error: {}", msg);
@@ -37,23 +45,13 @@ fn process_commands(
                 }
                 _ => {
                     log::debug!("[http] - success processed");
-                    match receiver.try_next() {
-                        Ok(message_opt) => match message_opt {
-                            Some(message) => {
-                                responses.push(message);
-                            }
-                            _ => {
-                                responses.push("empty".to_string());
-                                log::debug!("http_ops::process_message::Empty message");
-                            }
-                        },
-                        Err(e) => {
+                    match messages.into_iter().next() {
+                        Some(message) => {
+                            responses.push(message);
+                        }
+                        None => {
                             responses.push("empty".to_string());
-                            log::debug!(
-                                "http_ops::receiver.try_next empty for {}, message {}",
-                                clean_command,
-                                e
-                            )
+                            log::debug!("http_ops::process_message::Empty message");
                         }
                     }
                 }
